@@ -82,6 +82,9 @@ func (f *fake) bulkIlv(rc *runCtx, ctx context.Context, in *storeapi.BulkRequest
 			late = true
 		}
 	}
+	if !late && o != oSlowOk && ctx.Err() != nil {
+		late = true // released and expired at the same moment: the context wins, as in the model
+	}
 	logged := o
 	if late {
 		logged = oTimeout // the call returns the context's error, whatever the store did
@@ -226,7 +229,10 @@ func (rc *runCtx) doEvent(e evJ) {
 		}
 		rc.mu.Unlock()
 		for _, c := range fly { // the calls in flight return the context's error
-			waitAck(c)
+			select {
+			case <-c.ack:
+			case <-time.After(250 * time.Millisecond): // a call that does not see the expiry (reported through the log)
+			}
 		}
 	default:
 		rc.mu.Unlock()
